@@ -998,7 +998,7 @@ def narrow_cases(thorough=False):
         add("exprVarLen", q, "{math:{var:NAME}+1}", [_tok("m", "{var:%s}+1" % nm)], {"exprVarLen": q}, mem, wraps=ws)
         if q < 1000 or thorough:
             add("exprVarLen", q, "<if case=\"{var:NAME} == 4\">", ["i2", _tok("c", "{var:%s} == 4" % nm), "b1", _tok("x", "T"), "e", "b1", _tok("x", "F")], {"exprVarLen": q}, mem, wraps=ws)
-            add("exprVarLen", q, "{if case=\"{var:NAME}\" ...}", ["q%s:1:1" % dots(U("{var:%s}" % nm)), _tok("x", "T"), _tok("x", "F")], {"exprVarLen": q}, mem, wraps=ws)
+            add("exprVarLen", q, "{if case=\"{var:NAME}\" ...}", ["q%s:1:1" % dots(U("{var:%s}" % nm)), _tok("x", "T"), _tok("x", "F")], {"exprVarLen": q, "trueOff": q + 24, "iifLen": q + 44}, mem, wraps=ws)
     # ---- F4 setLen (value= first, so that ValueOffset stays small) and the same with set= first (ValueOffset = q + 20)
     for q in N8 + ((65535, 65536) if not thorough else N16):
         nm = _nm(q, "t")
